@@ -270,6 +270,13 @@ Definition unaligned (co cp : frame) : outcome :=
     then Rows (map (fun ab => (fst (fst ab), Some (snd (fst ab)), Some (snd (snd ab)))) (combine (rows co) (rows cp)))
     else Unaligned.
 
+(* level order of the returned objects: total_columns, except that with at most two levels nothing is reordered
+   ("if obj.index.nlevels > 2") and pandas align leaves the order of the operand with more levels (obj on a tie) *)
+Definition result_levels (lo lp : list name) : list name :=
+  if have_commons lo lp && Nat.leb (length (total lo lp)) 2
+  then (if Nat.leb (length lp) (length lo) then lo else lp)
+  else total lo lp.
+
 Definition bcast_impl (s : state) : run :=
   let o := st_obj s in let p := st_prm s in
   (* uuids = _replace_none_index_names_with_unique_string([parameter, self._obj]) *)
@@ -287,7 +294,7 @@ Definition bcast_impl (s : state) : run :=
   (* restore_original_indeces; _replace_unique_string_with_none_name *)
   let fo := UFrame (map unname lo) saved_o in
   let fp := UFrame (map unname lp) saved_p in
-  Run (lo, lp) (co, cp) r' (map unname (total lo lp))
+  Run (lo, lp) (co, cp) r' (map unname (result_levels lo lp))
       (match r with Raise => None | _ => Some (State fo fp) end).
 
 End Join.
